@@ -67,6 +67,22 @@ const (
 	OpAddSampleInterval    = "AddSampleInterval"
 )
 
+// Observer op kinds (drawn only with Options.Observers): calls made BETWEEN the sample
+// additions that only look at the fragment / the media segment it is attached to. They
+// carry no sample; Op.Arg selects a variant (Info levels, Encode vs EncodeSW).
+const (
+	OpObserveSize      = "Observe:Fragment.Size"
+	OpObserveInfo      = "Observe:Fragment.Info"
+	OpObserveMoofInfo  = "Observe:Moof.Info"
+	OpObserveEncode    = "Observe:Fragment.Encode" // to a discard writer; only drawn while the fragment's EncOptimize is OptimizeNone (Encode with OptimizeTrun is documented to rewrite tfhd/trun)
+	OpObserveSegSize   = "Observe:MediaSegment.Size"
+	OpObserveSegInfo   = "Observe:MediaSegment.Info"
+	OpObserveSegEncode = "Observe:MediaSegment.Encode" // only drawn while the segment's EncOptimize is OptimizeNone
+)
+
+// IsObserver tells whether an op kind is an observer call (adds no sample).
+func IsObserver(kind string) bool { return len(kind) > 8 && kind[:8] == "Observe:" }
+
 // Modes of a fragment: the three mdat modes of the API are exclusive.
 const (
 	ModeFull     = "full"     // mdat.Data filled by AddFullSample*
@@ -79,6 +95,7 @@ type Op struct {
 	Kind    string   `json:"kind"`
 	Track   uint32   `json:"track"`
 	Samples []Sample `json:"samples"`
+	Arg     int      `json:"arg,omitempty"` // observer ops: variant
 }
 
 // ExtraBox is a box that carries no sample.
@@ -100,6 +117,9 @@ type FragmentSpec struct {
 	Before    []ExtraBox `json:"before,omitempty"` // file-level boxes emitted before the fragment
 	LargeMdat bool       `json:"large_mdat,omitempty"`
 	TrexTrick bool       `json:"trex_trick,omitempty"` // drop trun fields that equal the trex defaults
+	// PreOptimize: Fragment.EncOptimize is set to the history's final value right after the
+	// fragment is created, before any sample is added (as a caller configuring the fragment up front would).
+	PreOptimize bool `json:"pre_optimize,omitempty"`
 }
 
 // SegmentSpec describes one media segment.
@@ -108,6 +128,11 @@ type SegmentSpec struct {
 	NSidx           int            `json:"nsidx"`             // sidx boxes at the start of the segment (after styp)
 	ViaMediaSegment bool           `json:"via_media_segment"` // encode through mp4.MediaSegment instead of fragment by fragment
 	Fragments       []FragmentSpec `json:"fragments"`
+	// AttachFirst (only with ViaMediaSegment): every fragment is added to the mp4.MediaSegment right after it is
+	// created, before its samples are added, so that segment-level observers can run between the additions.
+	// PreOptimize: MediaSegment.EncOptimize is set before the first fragment is added instead of right before encoding.
+	AttachFirst bool `json:"attach_first,omitempty"`
+	PreOptimize bool `json:"seg_pre_optimize,omitempty"`
 }
 
 // TrackSpec describes one track of the init segment.
@@ -155,6 +180,11 @@ type Options struct {
 	Layouts      bool // C12: random index/delimiter layouts (top-level sidx, mfra, styp on some segments, up to 6x4)
 	SmallTimes   bool // decode times and durations small enough for 32-bit sidx arithmetic
 	LongRuns     bool // one or two fragments of 1023..3000 small samples, half of the tracks with all fields constant (truns without per-sample fields)
+	// Observers: observer calls (Fragment.Size/Info/Encode-to-discard, Moof.Info, MediaSegment.Size/Info/Encode) are
+	// inserted between the sample additions, EncOptimize is set before the additions in about half of the fragments/segments,
+	// and fragments of MediaSegment-encoded segments are mostly attached before they are filled. Drawn after
+	// everything else: the rest of the history is the same as without the option.
+	Observers bool
 	// Tracks, when non-empty, are used instead of drawing tracks (C19: fragments for an
 	// init built elsewhere; ids must be the 1..n that AddEmptyTrack assigns if Build's own init is used).
 	Tracks []TrackSpec
@@ -259,7 +289,52 @@ func Generate(r *runner.Rand, o Options) *History {
 		h.Segments = append(h.Segments, seg)
 	}
 	genLayout(r, o, h)
+	if o.Observers {
+		genObservers(r, h)
+	}
 	return h
+}
+
+// genObservers inserts observer ops into the finished history (Options.Observers).
+func genObservers(r *runner.Rand, h *History) {
+	for si := range h.Segments {
+		seg := &h.Segments[si]
+		if seg.ViaMediaSegment && r.Chance(3, 4) {
+			seg.AttachFirst = true
+			seg.PreOptimize = r.Bool()
+		}
+		for fi := range seg.Fragments {
+			fs := &seg.Fragments[fi]
+			fs.PreOptimize = r.Bool()
+			kinds := []string{OpObserveSize, OpObserveSize, OpObserveInfo, OpObserveMoofInfo}
+			if !(fs.PreOptimize && h.Optimize) {
+				kinds = append(kinds, OpObserveEncode)
+			}
+			if seg.AttachFirst {
+				kinds = append(kinds, OpObserveSegSize, OpObserveSegSize, OpObserveSegInfo)
+				if !(seg.PreOptimize && h.Optimize) && !(fs.PreOptimize && h.Optimize) {
+					kinds = append(kinds, OpObserveSegEncode)
+				}
+			}
+			n := r.PickInt(0, 1, 1, 2, 3)
+			for k := 0; k < n; k++ {
+				pos := r.Intn(len(fs.Ops) + 1)
+				if len(fs.Ops) >= 2 && r.Chance(3, 4) {
+					pos = 1 + r.Intn(len(fs.Ops)-1) // strictly inside the history
+				}
+				var track uint32
+				if len(fs.Tracks) > 0 {
+					track = fs.Tracks[0]
+				}
+				op := Op{Kind: kinds[r.Intn(len(kinds))], Track: track, Arg: r.Intn(16)}
+				ops := make([]Op, 0, len(fs.Ops)+1)
+				ops = append(ops, fs.Ops[:pos]...)
+				ops = append(ops, op)
+				ops = append(ops, fs.Ops[pos:]...)
+				fs.Ops = ops
+			}
+		}
+	}
 }
 
 // genLayout decides delimiters, index boxes and the encode route per segment.
